@@ -28,6 +28,7 @@ static inline int myth_spin_lock_body(myth_spinlock_t *lock) {
   int failed = 0;
   while (!myth_spin_trylock_body(lock)) {
     failed++;
+    MYTH_VERIF_SPIN(mythv_p_spin_lock_wait, lock->locked);
   }
   return failed;
 }
@@ -47,6 +48,7 @@ static inline int myth_spin_trylock_body(myth_spinlock_t *lock) {
 
 static inline int myth_spin_unlock_body(myth_spinlock_t *lock) {
   myth_rwbarrier();
+  MYTH_VERIF_POINT(mythv_p_spin_unlock, lock->locked);
   lock->locked = 0;
   return 0;
 }
